@@ -6,8 +6,8 @@ import numpy as np
 from harness import common as C
 from harness import zoo as Z
 
-ANCHORS = ["T7hist"]
-MODELS = []
+ANCHORS = ["T7hist", "T7mic"]
+MODELS = ["Mic", "MicCase"]
 RULE = ("random operation histories over {fit(D_i), transform(D_j), inverse_transform, components, scores, metrics, compute, serialize, "
         "rotator.fit(model), bootstrapper.fit(model)} applied to one model object (length <= 12 quick, <= 40 thorough), data sets of equal and "
         "different structure, every model class; after each history the answers are compared with a fresh model fitted on the last data set; "
@@ -204,6 +204,92 @@ def run_histories(ctx, rng, N, maxlen):
         ctx.traces += 1
 
 
+def run_histories_stacked(ctx, rng, N, maxlen):
+    """histories on models whose sample axis is stacked from two dimensions or is a user MultiIndex: transforms of
+    OTHER data (same and different sample counts, other labels) between fit and the queries"""
+    import pandas as pd
+    import xarray as xr
+    import xeofs as xe
+
+    def mk(kind, years, p):
+        if kind == "two-dims":
+            return xr.DataArray(rng.standard_normal((len(years), 3, p)), dims=("year", "month", "x"),
+                                coords={"year": years, "month": [1, 2, 3], "x": np.arange(p)})
+        mi = pd.MultiIndex.from_product([years, [1, 2, 3]], names=("yy", "mm"))
+        return xr.DataArray(rng.standard_normal((len(mi), p)), dims=("time", "x"), coords={"x": np.arange(p)}).assign_coords(
+            xr.Coordinates.from_pandas_multiindex(mi, "time"))
+
+    for i in range(N):
+        kind = ["two-dims", "multiindex"][i % 2]
+        name = ["EOF", "ComplexEOF", "MCA"][(i // 2) % 3]
+        cross = name == "MCA"
+        dim = ("year", "month") if kind == "two-dims" else "time"
+        p = int(rng.integers(3, 5))
+        make = (lambda: xe.cross.MCA(n_modes=2, use_pca=False, solver="full", random_state=7)) if cross else \
+            (lambda: getattr(xe.single, name)(n_modes=2, solver="full", random_state=7))
+        pool = [mk(kind, [2000 + 10 * j + q for q in range(4 if j < 3 else 3)], p) for j in range(4)]
+        m = make()
+        hist, last, fits = [], None, 0
+        aborted = False
+        for step in range(int(rng.integers(3, maxlen + 1))):
+            op = "fit" if last is None else str(rng.choice(["fit", "transform", "transform", "scores", "inverse"]))
+            j = int(rng.integers(0, len(pool)))
+            hist.append((op, j))
+            try:
+                if op == "fit":
+                    m.fit(pool[j], pool[j] * 0.5 + 1.0, dim) if cross else m.fit(pool[j], dim)
+                    last = j
+                    fits += 1
+                elif op == "transform":
+                    m.transform(pool[j], pool[j] * 0.5 + 1.0) if cross else m.transform(pool[j])
+                elif op == "scores":
+                    m.scores()
+                else:
+                    m.inverse_transform(*m.scores()) if cross else m.inverse_transform(m.scores())
+            except NotImplementedError:
+                pass
+            except Exception as e:
+                ctx.violation("C14:%s:%s:history-error:%s:%s" % (name, kind, op, C.errkind(e)), "%s (%s): operation %s in history %r raised %r" % (name, kind, op, hist, e),
+                              dict(kind="history-stacked", cls=name, structure=kind, history=hist))
+                aborted = True
+                break
+        ctx.case(("hist-stacked", name, kind, tuple(hist)), nontrivial=len(hist) >= 3, tag="%s/%s/len%d" % (name, kind, len(hist)),
+                 sample=dict(cls=name, structure=kind, history=hist))
+        if aborted:
+            continue
+        fresh = make()
+        probe = pool[last]
+        if cross:
+            fresh.fit(probe, probe * 0.5 + 1.0, dim)
+            a, b = answers(m, "cross", probe, probe * 0.5 + 1.0), answers(fresh, "cross", probe, probe * 0.5 + 1.0)
+        else:
+            fresh.fit(probe, dim)
+            a, b = answers(m, "single", probe), answers(fresh, "single", probe)
+        if not equal(a, b) or not labels_equal(m, fresh, cross):
+            which = first_diff(b, a) if not equal(a, b) else "labels"
+            ctx.violation("C14:%s:%s:%s:%s" % (name, kind, "refit" if fits >= 2 else "queries", which),
+                          "%s (%s): after history %r the answer %r differs from a fresh model fitted on the last data set" % (name, kind, hist, which),
+                          dict(kind="history-stacked", cls=name, structure=kind, history=hist, differs=which))
+        ctx.traces += 1
+
+
+def labels_equal(m, fresh, cross):
+    """sample labels of the fitted scores and of the reconstruction, entry by entry (canon() compares values only)"""
+    def lab(v):
+        out = []
+        for x in (v if isinstance(v, (list, tuple)) else [v]):
+            out.append({d: [tuple(e) if isinstance(e, tuple) else e for e in x.indexes[d].tolist()] for d in x.dims if d in x.indexes})
+        return out
+    try:
+        if lab(m.scores()) != lab(fresh.scores()):
+            return False
+        ra = m.inverse_transform(*m.scores()) if cross else m.inverse_transform(m.scores())
+        rb = fresh.inverse_transform(*fresh.scores()) if cross else fresh.inverse_transform(fresh.scores())
+        return lab(ra) == lab(rb)
+    except NotImplementedError:
+        return True
+
+
 def run_rotator_leaves_model(ctx, rng, N):
     """fitting a rotator or bootstrapper leaves the model's own results and labels intact"""
     import xeofs as xe
@@ -245,7 +331,10 @@ def run(ctx):
     C.setup_impl_env()
     rng = ctx.rng.child("c14").np
     run_histories(ctx, rng, ctx.n(45, 900), ctx.n(8, 40))
+    run_histories_stacked(ctx, rng, ctx.n(18, 300), ctx.n(7, 20))
     run_rotator_leaves_model(ctx, rng, ctx.n(10, 100))
+    from harness import mic
+    mic.run(ctx, "C14", ctx.n(150, 1500))
     ctx.oblige("oracle:answers after any history equal a fresh model fitted on the last data; inputs and model untouched", "oracle", not ctx.violations)
 
 
